@@ -44,3 +44,55 @@ Example ex_valid_mi : valid_mi [2; 0; 4] [3; 4; 5].
 Proof. repeat constructor; lia. Qed.
 Example ex_to_seq : to_seq [2; 0; 4] [3; 4; 5] = 44 /\ from_seq 44 [3; 4; 5] = [2; 0; 4].
 Proof. vm_compute. auto. Qed.
+
+(* hypotheses of kron_pattern_is_kronecker / rows_spec / cols_spec / matvec_spec hold for the
+   example structures *)
+Example ex_wf : wf_structure ex_bs ex_bidx.
+Proof. unfold wf_structure, ex_bs, ex_bidx, pat_in_block. repeat constructor; simpl; lia. Qed.
+Example ex_wf_rect : wf_structure ex_rbs ex_rbidx.
+Proof. unfold wf_structure, ex_rbs, ex_rbidx, pat_in_block. vm_compute. repeat constructor; discriminate. Qed.
+Example ex_dims_pos_rect : dims_pos (rowdims ex_rbs) /\ dims_pos (coldims ex_rbs).
+Proof. split; repeat constructor. Qed.
+
+(* a three-level rectangular structure with shuffled entries and first non-zeros off column 0 *)
+Definition ex3_bs : list (Z * Z) := [(3, 2); (2, 2); (1, 2)].
+Definition ex3_bidx : list pat := [[(2, 1); (0, 1)]; [(1, 0); (0, 1)]; [(0, 1)]].
+Example ex3_nonzero : nonzero ex3_bs ex3_bidx false = Some [(5, 5); (4, 7); (1, 5); (0, 7)].
+Proof. vm_compute. reflexivity. Qed.
+Example ex3_lower : nonzero ex3_bs ex3_bidx true = Some [(5, 5)].
+Proof. vm_compute. reflexivity. Qed.
+Example ex3_rows : nonzeros_for_rows ex3_bs ex3_bidx [4; 0; 3] = Some [(4, 7, 0); (0, 7, 1)].
+Proof. vm_compute. reflexivity. Qed.
+Example ex3_rows_refused : nonzeros_for_rows ex3_bs ex3_bidx [6] = None.
+Proof. vm_compute. reflexivity. Qed.
+Example ex3_cols : nonzeros_for_columns ex3_bs ex3_bidx [7; 5] = Some [(4, 7); (0, 7); (5, 5); (1, 5)].
+Proof. vm_compute. reflexivity. Qed.
+Example ex3_kron_nonzero : kron_nonzero ex3_bs ex3_bidx 4 7.
+Proof.
+  unfold kron_nonzero. split; [vm_compute; split; [discriminate|reflexivity]|].
+  split; [vm_compute; split; [discriminate|reflexivity]|].
+  vm_compute. repeat constructor; simpl; tauto.
+Qed.
+
+(* multilevel index *)
+Example ex_valid_ml : valid_ml [5; 3] [(3, 2); (2, 2)].
+Proof. repeat constructor; simpl; lia. Qed.
+Example ex_reindex : reindex_to_multilevel 5 3 [(3, 2); (2, 2)] = [5; 3]
+  /\ reindex_from_multilevel [5; 3] [(3, 2); (2, 2)] = (5, 3).
+Proof. vm_compute. auto. Qed.
+
+(* compute_sparsity_ij on nested meshes (knot values scaled by 4): p=2 on {0,2,4} against its
+   uniform refinement; rows = functions of the second knot vector *)
+Example ex_sparsity_nested :
+  compute_sparsity_ij (supports [0; 0; 0; 2; 4; 4; 4] 2) (supports [0; 0; 0; 1; 2; 3; 4; 4; 4] 2)
+  = [(0,0);(0,1);(0,2); (1,0);(1,1);(1,2); (2,0);(2,1);(2,2);(2,3); (3,0);(3,1);(3,2);(3,3);
+     (4,1);(4,2);(4,3); (5,1);(5,2);(5,3)].
+Proof. vm_compute. reflexivity. Qed.
+
+(* asmatrix / reorder / kron_partial instances *)
+Example ex3_asmatrix : asmatrix ex3_bs ex3_bidx [1; -2; 3; 2] = [((0, 7), 2); ((1, 5), 3); ((4, 7), -2); ((5, 5), 1)].
+Proof. vm_compute. reflexivity. Qed.
+Example ex_kron_partial :
+  kron_partial [[[0; 2; 0]; [3; 0; 1]; [0; 7; 0]]; [[2; 9; 0; 0]; [0; 2; 9; 0]; [0; 0; 2; 9]]] [4] true
+  = Some [((0, 1), 6); ((0, 2), 27); ((0, 9), 2); ((0, 10), 9)].
+Proof. vm_compute. reflexivity. Qed.
